@@ -74,7 +74,7 @@ _waiters: list[asyncio.Future] = []
 OBSERVER: list = []     # optional callables(kind, **fields) for the simulator's trace (observation only)
 
 
-def _obs(kind: str, **f: Any) -> None:
+def _obs(kind: str, /, **f: Any) -> None:
     for o in OBSERVER:
         o(kind, **f)
 
@@ -442,7 +442,7 @@ class DBOS(metaclass=_Meta):
             if ctx is not None:
                 inst.record(ctx.workflow_id, fid, "DBOS.send", conn=c)
             c.commit()
-        _obs("dbos-send", dest=destination_id, topic=topic, kind=type(message).__name__)
+        _obs("dbos-send", dest=destination_id, topic=topic, msg=type(message).__name__)
         _notify()
 
     @staticmethod
@@ -480,7 +480,7 @@ class DBOS(metaclass=_Meta):
                     c.commit()
             if row is not None:
                 msg = pickle.loads(row[1])
-                _obs("dbos-recv", wf=wfid, fid=fid, kind=type(msg).__name__)
+                _obs("dbos-recv", wf=wfid, fid=fid, msg=type(msg).__name__)
                 return msg
             remaining = deadline - time.time()
             if remaining <= 0:
